@@ -1,10 +1,6 @@
 """C04 — persisted chunk files do not outlive the chunk."""
-import concurrent.futures as cf
-import json
-import shutil
-import subprocess
-
 from tools.vlib import *
+from tools.vlib import _handle_violation
 from props.C01 import extract_store, payload, Track, SECOND, START
 
 PID = "C04"
@@ -22,9 +18,10 @@ MANIFEST = {
                   "(crash_recovery, others_untouched), and a wipe writes size zero bytes per pass before the remove (overwritten). "
                   "Tied to the source by regenerated constants (4096-byte wipe buffer, .chunk suffix, expiry comparison operators, "
                   "1 s floor) and by a differential run of the real ChunkStore/Node on a scratch directory against the compiled "
-                  "model, including crash-point enumeration: a child process per (history, k) is killed before the k-th mutating "
-                  "file-system call (fopen-truncate / write / writev / unlink interposed), a fresh process restarts on the same "
-                  "directory, and the Lean specification judges every directory listing.",
+                  "model, including crash-point enumeration: a forked child process per (history, k) runs the operation and is killed "
+                  "before its k-th mutating file-system call (fopen-truncate / write / writev / unlink interposed), the parent forgets "
+                  "its instance, a fresh instance restarts on the same directory, and the Lean specification judges every directory "
+                  "listing.",
     "level_note": "Trusted: Lean kernel; the transcription of the C++ file-system call sequences into FsOp lists (checked by the "
                   "differential run: directory listings with content hashes after every operation, the number of mutating calls "
                   "per operation, bytes written and all-zero flag per wiped file); the interposer harness (harness/c04_fsfault.cpp). "
@@ -211,142 +208,64 @@ def gen_crash_history(rng) -> tuple[list[str], int, str]:
     return ops + tail, idx, shape
 
 
-def _run_proc(hbin: Path, lines: list[str], workdir: Path, env_extra: dict, name: str) -> tuple[int, list[str], str]:
-    f = workdir / f"crash-{name}.ops"
-    f.write_text("\n".join(lines) + "\n")
-    env = dict(os.environ)
-    env.update(env_extra)
-    try:
-        r = subprocess.run([str(hbin), str(f)], capture_output=True, text=True, errors="replace", timeout=60, env=env, cwd=str(workdir))
-        rc, out, err = r.returncode, r.stdout, r.stderr
-    except subprocess.TimeoutExpired:
-        rc, out, err = -9, "", "timeout"
-    finally:
-        try:
-            f.unlink()
-        except OSError:
-            pass
-    return rc, out.splitlines(), err
-
-
-def run_crash_point(hbin: Path, ops: list[str], idx: int, k: int, workdir: Path, tag: str) -> tuple[list[str], Optional[str]]:
-    """Process 1 runs ops[:idx+1] and is killed before the k-th mutating call of the crash op; process 2
-    runs the rest on the same directory.  Returns the combined implementation lines."""
-    env = {"STORE_H_TAG": tag, "STORE_H_KEEP": "1"}
-    cid = "x"
-    try:
-        rc, out1, err1 = _run_proc(hbin, [f"case {cid}"] + ops[:idx + 1], workdir,
-                                   {**env, "C04_CRASH_OP": str(idx + 1), "C04_CRASH_AT": str(k)}, tag + "a")
-        out1 = out1[1:]                      # drop the echoed case line
-        if rc != 77:
-            return out1 + ["<no-crash>"] * (len(ops) - len(out1)), f"first process did not die at the crash point (rc={rc}) {err1[-300:]}"
-        impl = out1[:idx] + ["crashed"]
-        elapsed = sum(int(o.split()[1]) for o in ops[:idx] if o.startswith("adv "))
-        rc2, out2, err2 = _run_proc(hbin, [f"case {cid}", f"adv {elapsed}"] + ops[idx + 1:], workdir, env, tag + "b")
-        out2 = out2[2:]
-        impl += out2
-        crashed = None
-        if rc2 != 0:
-            crashed = f"second process failed rc={rc2} {err2[-300:]}"
-        while len(impl) < len(ops):
-            impl.append("crash:" + (crashed or "missing"))
-        return impl, crashed
-    finally:
-        shutil.rmtree(workdir / f"sd-{tag}", ignore_errors=True)
-
-
-def judge_with_driver(drv: Path, items: list[tuple[Case, list[str]]], workdir: Path) -> list[CaseResult]:
-    cases = [c for c, _ in items]
-    impl = {c.cid: lines for c, lines in items}
-    d = run_driver(drv, cases, impl, workdir)
-    out = []
-    for c, lines in items:
-        model, verd = [], []
-        for ln in d.get(c.cid, []):
-            a, b = ln.rsplit(" ## ", 1) if " ## " in ln else (ln, "ok")
-            model.append(a)
-            verd.append(b)
-        while len(model) < len(c.ops):
-            model.append("<missing>")
-            verd.append("ok")
-        out.append(CaseResult(c, lines, model, verd, None))
-    return out
-
-
-def crash_enumeration(ctx: Ctx, hbin: Path, drv: Path, n_hist: int) -> None:
+def crash_enumeration(ctx: Ctx, sp: Spec, hbin: Path, drv: Path, n_hist: int) -> None:
     rng = ctx.rng
     hists = [gen_crash_history(rng) for _ in range(n_hist)]
-    # 1. count run: the crash op completes and reports how many mutating calls it made
+
+    def account(rs: list[CaseResult], divs: list[CaseResult]) -> None:
+        for r in rs:
+            ctx.count_case(r.case, True)
+            ctx.hist("tag:" + r.case.tag)
+            if r.crashed:
+                ctx.hist("outcome:crash")
+            if r.viols or r.crashed:
+                ctx.hist("outcome:viol")
+                _handle_violation(ctx, sp, hbin, drv, r)
+            elif r.diverges:
+                ctx.hist("outcome:diverge")
+                divs.append(r)
+            else:
+                ctx.hist("outcome:agree")
+                ctx.coverage["traces_validated_against_impl"] += 1
+
+    divs: list[CaseResult] = []
+    # 1. count run: `crash <op>` completes and reports how many mutating file-system calls it made
     count_cases = [Case(ops=ops, tag="crash-count/" + shape, cid=f"cc{i}") for i, (ops, idx, shape) in enumerate(hists)]
-    res = run_pair(hbin, drv, count_cases, ctx.work, shards=min(NPROC, max(1, len(count_cases) // 8)))
-    points = []
+    res = run_pair(hbin, drv, count_cases, ctx.work)
+    account(res, divs)
+    # 2. one case per crash point: `crashat <k> <op>` (forked child killed before its k-th mutating call)
+    cases = []
     for (ops, idx, shape), r in zip(hists, res):
-        ctx.count_case(r.case, True)
-        ctx.hist("tag:" + r.case.tag)
-        if r.viols or r.crashed:
-            sig = default_signature(r)
-            ctx.report(sig, "failing-input", {"ops": ops, "impl_out": r.impl, "model_out": r.model,
-                                              "monitor": "; ".join(f"op {i}: {v}" for i, v in r.viols[:4])}, found_input=True)
-        elif r.diverges:
-            ctx.hist("outcome:diverge")
-            ctx.coverage.setdefault("crash_divergences", []).append({"ops": ops, "impl_out": r.impl, "model_out": r.model})
-        else:
-            ctx.coverage["traces_validated_against_impl"] += 1
         m = re.match(r"fsops=(\d+)", r.impl[idx] if idx < len(r.impl) else "")
         n = int(m.group(1)) if m else 0
+        target = ops[idx][len("crash "):]
         for k in range(n):
-            points.append((ops, idx, shape, k))
-    # 2. one killed child + one restarted child per crash point
-    def one(job):
-        j, (ops, idx, shape, k) = job
-        impl, crashed = run_crash_point(hbin, ops, idx, k, ctx.work, f"{os.getpid()}-{j}")
-        return Case(ops=ops, tag=f"crash/{shape}", cid=f"cp{j}"), impl, crashed, idx, k
-    with cf.ThreadPoolExecutor(max_workers=NPROC) as ex:
-        done = list(ex.map(one, enumerate(points)))
-    items = [(c, impl) for c, impl, _, _, _ in done]
-    results = []
-    for off in range(0, len(items), 2000):
-        results += judge_with_driver(drv, items[off:off + 2000], ctx.work)
+            cases.append(Case(ops=ops[:idx] + [f"crashat {k} {target}"] + ops[idx + 1:], tag="crash/" + shape, cid=f"cp{len(cases)}"))
     ctx.coverage["crash_histories"] = n_hist
-    ctx.coverage["crash_points_enumerated"] = len(points)
-    for (c, impl, crashed, idx, k), r in zip(done, results):
-        ctx.coverage["evaluations"] += 1
-        ctx.hist("tag:" + c.tag)
-        payload_doc = {"ops": c.ops, "impl_out": r.impl, "model_out": r.model, "crash": {"op_index": idx, "k": k}}
-        if crashed:
-            ctx.hist("outcome:crash-harness-error")
-            ctx.report("crash-harness:" + crashed.split(" ")[0], "broken-correspondence",
-                       {**payload_doc, "monitor": crashed}, found_input=False)
-        elif r.viols:
-            ctx.hist("outcome:viol")
-            ctx.report(default_signature(r), "failing-input",
-                       {**payload_doc, "monitor": "; ".join(f"op {i}: {v}" for i, v in r.viols[:4])}, found_input=True)
-        elif r.diverges:
-            ctx.hist("outcome:diverge")
-            ctx.coverage.setdefault("crash_divergences", []).append(payload_doc)
-        else:
-            ctx.hist("outcome:agree")
-            ctx.coverage["traces_validated_against_impl"] += 1
-    div = ctx.coverage.get("crash_divergences", [])
-    if div and not ctx.violations:
+    ctx.coverage["crash_points_enumerated"] = len(cases)
+    for off in range(0, len(cases), 2000):
+        account(run_pair(hbin, drv, cases[off:off + 2000], ctx.work), divs)
+    if divs and not ctx.violations:
+        r = divs[0]
         ctx.report("diverge:crash-state", "broken-correspondence",
-                   {**div[0], "monitor": f"{len(div)} crash run(s) where model and implementation differ (first shown)"}, found_input=False)
-    ctx.coverage["crash_divergences"] = len(div)
-    if done:
-        c, impl, _, idx, k = done[len(done) // 2]
-        ctx.sample({"crash_point": {"op_index": idx, "k": k}, "ops": c.ops, "impl": impl}, limit=8)
+                   {"ops": r.case.ops, "impl_out": r.impl, "model_out": r.model,
+                    "monitor": f"{len(divs)} crash run(s) where model and implementation differ (first shown, op {r.diverges[0]})"},
+                   found_input=False)
+    ctx.coverage["crash_divergences"] = len(divs)
+    if cases:
+        ctx.sample({"crash_case": cases[len(cases) // 2].ops}, limit=8)
 
 
 def spec() -> Spec:
     def post(ctx, results):
-        n = {"quick": 30, "thorough": 300}[ctx.tier]
+        n = {"quick": 40, "thorough": 600}[ctx.tier]
         drv = LEAN / ".lake" / "build" / "bin" / "drv_c04"
         try:
-            crash_enumeration(ctx, harness(), drv, n)
+            crash_enumeration(ctx, sp, harness(), drv, n)
         except BuildError as ex:
             ctx.report("crash-enumeration-failed", "broken-correspondence", {"monitor": f"{ex.what}: {ex.output[-400:]}"}, found_input=False)
 
-    return Spec(
+    sp = Spec(
         pid=PID,
         proof_modules=["EphVerif.Proofs.C04"],
         driver="drv_c04",
@@ -361,8 +280,8 @@ def spec() -> Spec:
              "directory, directory listing with content hashes after every mutating op, payload sizes {0,1,..,4095,4096,4097,8192,"
              "10000}, 1-3 wipe passes; non-trivial = a chunk file is listed and later gone. (b) crash enumeration: for each crash "
              "history (store / overwrite / store over an orphan / sweep / sweep after a lookup noticed the expiry / start-up purge) "
-             "and each k < number of mutating file-system calls of the crash op, a child process is killed before the k-th call, "
-             "a new process lists the directory, restarts on it, sweeps and lists again; every crash point lies inside a store, "
+             "and each k < number of mutating file-system calls of the crash op, a forked child process runs the op and is killed before its k-th "
+             "call, the parent (which never ran the op) forgets its instance, lists the directory, restarts on it, sweeps and lists again; every crash point lies inside a store, "
              "wipe or purge (DESIGN section 9 rule); distinct = sha256 of the op list (+ k)",
         trusted_base=["interposition of fopen64/write/writev/unlink/remove in the harness executable (harness/c04_fsfault.cpp)",
                       "atomicity of single file-system calls; std::filesystem directory iteration", "virtual clock by link-time interposition"],
@@ -371,31 +290,8 @@ def spec() -> Spec:
                      "persistence and wipe-on-expiry enabled (the property's premise); with wipe-on-expiry off only model/implementation agreement is checked"],
         batch=2000,
     )
-
-
-def _replay_crash(doc: dict) -> int:
-    hbin = harness()
-    lake_build(["drv_c04"])
-    drv = LEAN / ".lake" / "build" / "bin" / "drv_c04"
-    work = BUILD / "tmp" / f"C04-replay-{os.getpid()}"
-    work.mkdir(parents=True, exist_ok=True)
-    try:
-        ops, idx, k = doc["ops"], doc["crash"]["op_index"], doc["crash"]["k"]
-        impl, crashed = run_crash_point(hbin, ops, idx, k, work, f"r{os.getpid()}")
-        r = judge_with_driver(drv, [(Case(ops=ops, cid="replay"), impl)], work)[0]
-        for i, op in enumerate(ops):
-            print(f"{i:3d} op    {op}\n    impl  {r.impl[i]}\n    model {r.model[i]}\n    mon   {r.verdicts[i]}")
-        bad = bool(r.viols or crashed)
-        print("REPRODUCED" if bad else "not reproduced")
-        return 1 if bad else 0
-    finally:
-        shutil.rmtree(work, ignore_errors=True)
+    return sp
 
 
 def run(tier, seed, replay=None):
-    if replay and replay.endswith(".json"):
-        doc = json.loads(Path(replay).read_text())
-        if doc.get("crash") and doc.get("ops"):
-            extract_store()
-            return _replay_crash(doc)
     return standard_check(spec(), tier, seed, replay)
